@@ -205,6 +205,10 @@ def gen_additivity(rng, tier):
     cont = fmt == "brackets" or kind == "transitions"
     A = sl.gen_tb(rng, tier, continuous=cont, nsent=rng.choice([1, 2, 3]))
     B = sl.gen_tb(rng, tier, continuous=cont, nsent=rng.choice([1, 2, 3]))
+    if kind == "grammar" and not cont and rng.random() < 0.4:
+        # B repeats sentences of A with two tokens moved: the same rules in the same contexts
+        # with other linearizations (what is kept per rule must not depend on which came first)
+        B = [g for g in (model.gap_twin(rng, x) for x in A) if g is not None] or B
     for i, s in enumerate(B):
         s["sid"] = len(A) + 1 + i
     d = {"mode": "additivity", "kind": kind, "fmt": fmt, "A": A, "B": B,
